@@ -20,7 +20,8 @@
 
 COVERAGE TABLE (statement / quantifier dimension -> explored by -> still a single point or absent)
   initial tree states      fs0 in {absent, previous generated content, user content, non-empty directory} per file, all 4^3
-                           (TLA+); existing content also reached THROUGH A SYMLINK, parent directory absent / present with
+                           (TLA+); a file that APPEARS at the path during the run (template served through a FIFO, the
+                           harness creates the user file while mockery is blocked retrieving it); existing content also reached THROUGH A SYMLINK, parent directory absent / present with
                            neighbours (concretisation)          -> absent: read-only file / directory (the harness runs as
                            root), dangling and directory symlinks, empty directory at the path, special files
   force-file-write levels  81 assignments of {unset,T,F} to root/pkg/iface/entry, effective value by TLA+; independent per
@@ -30,7 +31,9 @@ COVERAGE TABLE (statement / quantifier dimension -> explored by -> still a singl
                            path by DIFFERENT SPELLINGS; formatters differ per file incl. noop; all file orders (model), the
                            order the runtime draws (replay)                                  -> absent: > 3 files with faults
   single-stage failures    4 stages x 13 natural variants + mkdir (failpoint, path component is a FILE) / stat / write
-                           failpoints, any one file; ONE cause shared by 2 or 3 files x 12 variants (all replayed); a missing
+                           failpoints, any one file; ONE cause shared by 2 or 3 files x 12 variants (all replayed); one
+                           file's fault while the others use the SAME custom template + schema with other per-file
+                           parameters (replayed 6x: the outcome may depend on the order drawn); a missing
                            interface on top of a failing file                                -> absent: two independent
                            faults, a partial write inside os.WriteFile, ENOSPC, http(s) templates
   frame                    unrelated files, sources, unconfigured package, look-alike directory, read-only sentinel (+mode),
@@ -54,6 +57,7 @@ import time
 
 sys.path.insert(0, os.path.join(os.path.dirname(os.path.abspath(__file__)), "..", "lib"))
 from vlib import MachineryError, main, tree_hash, write_files, REPO, GO_SUM_MOD  # noqa: E402
+from vlib import sha as vsha  # noqa: E402
 import pipetrace  # noqa: E402
 import runtrace  # noqa: E402
 
@@ -105,6 +109,13 @@ LOOKALIKE = {"bool": {"testify": ("unroll-variadic", False, "false"), "matryer":
 # which the go command itself may rewrite go.mod / go.sum and a tool doing the same on purpose could not be told apart)
 USER_ENV = {"GOFLAGS": ""}
 _variant_turn = {}
+_mixed_turn = {}
+# A fault of ONE file whose custom template + schema is also used, with OTHER per-file parameters, by the remaining files
+# (require-template-schema-exists: false and conforming data there).  Whatever is kept per run for the template must not
+# carry one file's parameters over to another: the outcome may depend on the order the runtime draws, so such a world is
+# replayed ORDER_REPEATS times.
+MIXED = {"schema": "custom-schema-shared-mixed", "template": "schema-missing-shared-mixed"}
+ORDER_REPEATS = 6
 _dirseq = iter(range(1, 10 ** 9))
 _dirlock = threading.Lock()
 
@@ -135,6 +146,11 @@ def make_profiles(rng, n):
                     "double": rng.random() < 0.5,
                     # the mocks sharing a file reach it through DIFFERENT SPELLINGS of the same path (./x/../x/ vs x/)
                     "spell": i % 2 == 1})
+    # two profiles in which every file uses the custom template body: the worlds where the files SHARE one custom template
+    # (MIXED) take these, so that the single-file reference content is the content such a file gets
+    for layout in ("sep", "inpkg"):
+        out.append({"id": len(out), "layout": layout, "tmpl": {f: "custom" for f in FILES}, "allcustom": True,
+                    "fmt": {f: rng.choice(["goimports", "gofmt", "noop"]) for f in FILES}, "double": rng.random() < 0.5, "spell": False})
     return out
 
 
@@ -152,6 +168,12 @@ def choose(case, profiles, levels, rng, variant=None):
             prof = rng.choice([q for q in profiles if q["layout"] != "inpkg"])      # ... a separate output directory
         elif variant == "parent-is-file":
             variant = "failpoint"
+        if fault["at"] in MIXED and writable(w, fault["file"]) and _mixed_turn.get(fault["at"], 0) < 2 and not w["missing"]:
+            _mixed_turn[fault["at"]] = _mixed_turn.get(fault["at"], 0) + 1
+            variant = MIXED[fault["at"]]
+            prof = rng.choice([q for q in profiles if q.get("allcustom")])
+    if any(v == "appears" for v in w["fs0"].values()):
+        prof = rng.choice([q for q in profiles if q.get("allcustom")])      # the template comes through a FIFO with the custom body
     ch = {"profile": prof["id"], "root": rng.choice(["unset", "unset", "T", "F"]),
           "listing": {}, "levels": {}, "mocks_dir_exists": rng.random() < 0.5, "missing_in": rng.choice(FILES)}
     if fault["kind"] == "shared" and variant is None:
@@ -225,6 +247,7 @@ def build(root, case, ch, profiles, clean=False):
                 files[f"mocks/{PKG[f]}/zz_helpers.go"] = "package mocks\n\n// hand-written helper next to the generated file\nvar Helper = 1\n"
                 files[f"mocks/{PKG[f]}/mocks.go.orig"] = "a stale backup somebody left here\n"
     failspec = None
+    mixed_template = None
     for f in FILES:
         pkgcfg = {}
         listing = ch["listing"][f]
@@ -243,6 +266,8 @@ def build(root, case, ch, profiles, clean=False):
             pkgcfg.update({"template": f"file://{A}/tmpl/ok.templ", "require-template-schema-exists": False})
         else:
             pkgcfg.update({"template": f"file://{A}/tmpl/withschema.templ", "template-data": {"need": "x"}})
+        if not clean and w["fs0"][f] == "appears":
+            pkgcfg.update({"template": "file://" + ch["fifo"][f], "require-template-schema-exists": False})
         pkgcfg["formatter"] = prof["fmt"][f]
         icfgs = {}
         for i in IFACES[f]:
@@ -293,6 +318,11 @@ def build(root, case, ch, profiles, clean=False):
             if not ic.get("configs"):
                 ic["configs"] = [{}]
             ic["configs"][-1]["template-data"] = {"bogus-key": "x"}
+        elif variant in MIXED.values():
+            tname = "withschema" if variant == "custom-schema-shared-mixed" else "noschema"
+            pkgcfg.update({"template": f"file://{A}/tmpl/{tname}.templ", "template-data": {"other": 1} if tname == "withschema" else {},
+                           "require-template-schema-exists": True})
+            mixed_template = f"file://{A}/tmpl/{tname}.templ"
         elif variant == "custom-schema":
             pkgcfg.update({"template": f"file://{A}/tmpl/withschema.templ", "template-data": {"other": 1}})
             pkgcfg.pop("require-template-schema-exists", None)
@@ -343,6 +373,11 @@ def build(root, case, ch, profiles, clean=False):
         if not clean and w["missing"] and ch["missing_in"] == f:
             pc.setdefault("interfaces", {})["NoSuchInterface"] = {}
         conf["packages"][f"{MOD}/{PKG[f]}"] = pc
+    if mixed_template:       # the other files: the same template and schema URL, not required, conforming data
+        for f in FILES:
+            if f != fault["file"]:
+                pk = conf["packages"][f"{MOD}/{PKG[f]}"]["config"]
+                pk.update({"template": mixed_template, "require-template-schema-exists": False, "template-data": {"need": "x"}})
     designated = {f: out_rel(lay, f) for f in FILES}
     if fault["kind"] == "input" and fault["class"] == "untidy-module":
         # incomplete but resolvable go.mod / go.sum: nothing may rewrite them, whatever the run does otherwise
@@ -466,6 +501,12 @@ class Replayer:
             return ([({"kind": "valid-world-failed", "layout": prof["layout"]}, ref["error"])] if first else []), None
         ref = ref["content"]
         d = newdir(ctx, "w")
+        appears = [f for f in FILES if w["fs0"][f] == "appears"]
+        if appears:
+            fd = newdir(ctx, "fifo")        # outside the world: a FIFO cannot be hashed
+            ch = dict(ch, fifo={f: str(fd / f"{f}.templ") for f in appears})
+            for f in appears:
+                os.mkfifo(ch["fifo"][f])
         files, conf, des, failspec = build(d, case, ch, self.profiles)
         links = {}
         for f in FILES:
@@ -482,8 +523,39 @@ class Replayer:
             (d / rel).parent.mkdir(parents=True, exist_ok=True)
             os.symlink(target, d / rel)
         before, mbefore = tree_hash(d), modes(d)
+        fired, stop, feeders = set(), threading.Event(), []
+        for f in appears:
+            # serve the template through the FIFO; the moment mockery opens it (template retrieval of THIS file, nothing
+            # produced yet) put the user's file at the output path, then deliver the template
+            def feed(f=f):
+                while not stop.is_set():
+                    try:
+                        fdw = os.open(ch["fifo"][f], os.O_WRONLY | os.O_NONBLOCK)
+                    except OSError:
+                        time.sleep(0.003)
+                        continue
+                    p = d / des[f]
+                    p.parent.mkdir(parents=True, exist_ok=True)
+                    p.write_text(old_content("user", f, lay, ref))
+                    fired.add(f)
+                    os.set_blocking(fdw, True)
+                    os.write(fdw, TEMPLATES["tmpl/ok.templ"].encode())
+                    os.close(fdw)
+                    return
+            t = threading.Thread(target=feed, daemon=True)
+            t.start()
+            feeders.append(t)
         r = pipetrace.run(ctx, d, env=USER_ENV, fail=failspec)
+        stop.set()
+        for t in feeders:
+            t.join(5)
         after, mafter = tree_hash(d), modes(d)
+        for f in fired:         # "old" for such a path is the content that appeared
+            before[des[f]] = vsha(old_content("user", f, lay, ref).encode())
+            mbefore[des[f]] = mafter.get(des[f])
+            for anc in ancestors(des[f]):
+                if anc not in before and anc in after:
+                    before[anc], mbefore[anc] = "DIR", mafter.get(anc)
         # files whose content differs afterwards, spelled the way the hooks spell output paths (relative to the working
         # directory in the "sep" layout, absolute otherwise): input of the run-level clause only-written-files-changed
         link_targets = {f"linked/{f}_target.go" for f in FILES if links.get(des[f])}
@@ -563,7 +635,7 @@ class Replayer:
             shutil.rmtree(d, ignore_errors=True)       # thousands of worlds in the thorough tier
         summary = {"id": item["id"], "fs0": w["fs0"], "force": w["force"], "fault": {k: fault[k] for k in ("kind", "file", "files", "at", "class", "feature")},
                    "variant": ch["variant"], "layout": prof["layout"], "exit": r.code, "expected": exp["exit"],
-                   "outcome": outcome, "allowed": exp["final"]}
+                   "outcome": outcome, "allowed": exp["final"], "fired": sorted(fired)}
         return out, summary
 
 
@@ -580,6 +652,8 @@ def cls(w, f):
 def stratum(case):
     w = case["world"]
     fl = w["fault"]
+    if any(v == "appears" for v in w["fs0"].values()):
+        return ("appears", sum(1 for v in w["fs0"].values() if v == "appears"), w["force"]["f1"])
     if fl["kind"] == "input":
         return ("input", fl["class"], fl["feature"], fl["pos"], any(w["fs0"][f] != "absent" for f in FILES))
     if fl["kind"] == "shared":
@@ -626,6 +700,7 @@ def vacuity(cases):
         "either-old-or-new": lambda w, e: any(sorted(e["final"][f]) == ["new", "old"] for f in FILES),
         "zero exit expected": lambda w, e: e["exit"] == "zero",
         "a missing interface": lambda w, e: w["missing"],
+        "a file that appears during the run": lambda w, e: any(v == "appears" for v in w["fs0"].values()),
         "an untidy module": lambda w, e: w["fault"]["kind"] == "input" and w["fault"]["class"] == "untidy-module" and e["exit"] == "any",
         "a cause shared by all files": lambda w, e: w["fault"]["kind"] == "shared" and len(w["fault"]["files"]) == 3,
         "a cause shared by two files with the third writable": lambda w, e: w["fault"]["kind"] == "shared" and len(w["fault"]["files"]) == 2
@@ -715,7 +790,9 @@ def run(ctx):
                 for v in SHARED_VARIANTS[fl["at"]]:
                     items.append({"id": f"{i}/{v}", "case": cases[i], "choices": choose(cases[i], profiles, levels, rng, variant=v)})
             else:
-                items.append({"id": i, "case": cases[i], "choices": choose(cases[i], profiles, levels, rng)})
+                chz = choose(cases[i], profiles, levels, rng)
+                for k in range(ORDER_REPEATS if chz["variant"] in MIXED.values() else 1):
+                    items.append({"id": i if k == 0 else f"{i}#{k}", "case": cases[i], "choices": chz})
     t0 = time.time()
     results = pipetrace.pmap(rp.replay, items, workers=12 if thorough else 10)
     replay_wall = time.time() - t0
@@ -730,12 +807,13 @@ def run(ctx):
     ctx.cov["evaluations"] += len(items)
     # measured coverage of the replayed worlds
     stats = {"failed_stage": 0, "failpoint": 0, "blocked_by_existing": 0, "overwritten_with_force": 0, "dir_at_path": 0,
-             "written_before_failure_elsewhere": 0, "not_reached_after_failure": 0, "zero_exit": 0, "shared_cause": 0, "untidy_module": 0,
+             "written_before_failure_elsewhere": 0, "not_reached_after_failure": 0, "zero_exit": 0, "shared_cause": 0, "untidy_module": 0, "appeared_during_run": 0,
              "shared_cause_all_writable": 0}
     for s in summaries:
         fl = s["fault"]
         if fl["kind"] in ("stage", "shared"):
             stats["failed_stage" if fl["at"] in STEPS[:4] else "failpoint"] += 1
+        stats["appeared_during_run"] += len(s.get("fired", []))
         if fl["kind"] == "input":
             stats["untidy_module"] += 1
         if fl["kind"] == "shared":
